@@ -82,6 +82,18 @@ func runC16(res *Result, tier string, seed int64, replay string) {
 		`<mj-social><mj-divider/><mj-social-element name="facebook" href="h">F</mj-social-element><mj-text>y</mj-text><mj-social-element name="github" href="g">G</mj-social-element></mj-social>` +
 		`<mj-accordion><mj-text>z</mj-text><mj-accordion-element><mj-image src="j.png"/><mj-accordion-title>T</mj-accordion-title><mj-divider/><mj-accordion-text>X</mj-accordion-text></mj-accordion-element></mj-accordion>` +
 		`</mj-column><mj-text>stray text in a section</mj-text><mj-column><mj-text>c2</mj-text></mj-column></mj-section><mj-text>stray text in the body</mj-text></mj-body></mjml>`})
+	// parents that hand values down to their children (navbar base-url in front of relative / absolute / fragment addresses,
+	// social / accordion / carousel attributes inherited by elements that do or do not write their own): the handing down
+	// happens in the components, never in the nodes
+	docs = append(docs, struct{ name, src string }{"explicit:parents-hand-down", `<mjml><mj-head><mj-attributes><mj-navbar-link color="#111111"/><mj-social-element icon-size="18px"/><mj-class name="lk" href="cls"/></mj-attributes></mj-head><mj-body><mj-section><mj-column>` +
+		`<mj-navbar base-url="https://b.example/"><mj-navbar-link href="about">A</mj-navbar-link><mj-navbar-link href="/abs">B</mj-navbar-link><mj-navbar-link href="#">C</mj-navbar-link><mj-navbar-link href="https://o.example/x">D</mj-navbar-link><mj-navbar-link>E</mj-navbar-link><mj-navbar-link mj-class="lk">F</mj-navbar-link><mj-navbar-link href="">G</mj-navbar-link></mj-navbar>` +
+		`<mj-navbar base-url="https://c.example"><mj-navbar-link href="about">A</mj-navbar-link><mj-navbar-link href="/abs">B</mj-navbar-link></mj-navbar>` +
+		`<mj-social mode="vertical" inner-padding="7px" icon-size="30px" icon-height="31px" font-size="11px" color="#123456" border-radius="9px" icon-padding="2px" text-padding="1px" line-height="20px" font-family="Georgia" font-style="italic" font-weight="bold" text-decoration="underline" padding="5px" align="left" container-background-color="#eeeeee">` +
+		`<mj-social-element name="facebook" href="h">F</mj-social-element><mj-social-element name="github" href="g" padding="1px" icon-size="10px" color="#000001">G</mj-social-element><mj-social-element name="xing-noshare" src="s.png"/></mj-social>` +
+		`<mj-accordion border="1px solid #aaaaaa" font-family="Georgia" icon-position="left" icon-width="20px" icon-height="20px" icon-align="top" icon-wrapped-url="w.png" icon-wrapped-alt="+" icon-unwrapped-url="u.png" icon-unwrapped-alt="-" padding="3px">` +
+		`<mj-accordion-element><mj-accordion-title>T</mj-accordion-title><mj-accordion-text>X</mj-accordion-text></mj-accordion-element><mj-accordion-element icon-position="right" font-family="Arial" border="none"><mj-accordion-title font-size="9px">T2</mj-accordion-title><mj-accordion-text color="#010101">X2</mj-accordion-text></mj-accordion-element></mj-accordion>` +
+		`<mj-carousel tb-border="2px solid #0000ff" tb-border-radius="3px" tb-width="40px" border-radius="4px" icon-width="30px" thumbnails="visible"><mj-carousel-image src="a.png" href="l" alt="a" title="t"/><mj-carousel-image src="b.png" tb-border="none" border-radius="0" thumbnails-src="tb.png"/></mj-carousel>` +
+		`</mj-column></mj-section></mj-body></mjml>`})
 	// children written in an order a renderer might "normalise": text before title, several titles, links and images with raw
 	// content between them, duplicated and out-of-order social networks, head elements after the body
 	docs = append(docs, struct{ name, src string }{"explicit:child-orders", `<mjml><mj-body><mj-section><mj-column>` +
